@@ -104,13 +104,28 @@ def lean_pipeline(prop: str, clean: bool = False) -> LeanStatus:
 def _lean_pipeline(prop: str, clean: bool = False) -> LeanStatus:
     st = LeanStatus()
     r = subprocess.run([PY, str(VERIF / "harness" / "extract.py")], capture_output=True, text=True, cwd="/")
-    st.extract_ok = r.returncode == 0
     st.extract_msg = (r.stdout + r.stderr).strip()[-500:]
+    if r.returncode != 0:
+        return st
+    # a translator section that failed keeps its previous text; only the properties consuming it lose their tie
+    st.extract_ok = True
+    try:
+        status = json.loads((LEAN / ".lake" / "extract_status.json").read_text())
+        for name, props in status.get("affects", {}).items():
+            if prop in props:
+                st.extract_ok = False
+                st.extract_msg = f"section {name}: {status['failed'][name]}"
+    except (OSError, ValueError, KeyError):
+        pass
     if not st.extract_ok:
         return st
     if clean:
         shutil.rmtree(LEAN / ".lake" / "build", ignore_errors=True)
-    r = subprocess.run(["lake", "build"], capture_output=True, text=True, cwd=LEAN)
+    # build only what this property needs: the driver (all models), the audit tool and this property's proof module
+    targets = ["driver", "PytaskProofs.AuditTool"]
+    if (LEAN / "PytaskProofs" / "Properties" / f"{prop}.lean").exists():
+        targets.append(f"PytaskProofs.Properties.{prop}")
+    r = subprocess.run(["lake", "build", *targets], capture_output=True, text=True, cwd=LEAN)
     st.build_ok = r.returncode == 0
     st.build_log = (r.stdout + r.stderr)[-6000:]
     if not st.build_ok:
